@@ -165,3 +165,54 @@ func TestLoweringBV(t *testing.T)      { checkLowering(t, "z3-bv", false, 400) }
 func TestLoweringINT(t *testing.T)     { checkLowering(t, "z3-int", true, 400) }
 func TestLoweringCVC5INT(t *testing.T) { checkLowering(t, "cvc5-int", true, 150) }
 func TestLoweringZ3NewBV(t *testing.T) { checkLowering(t, "z3new-bv", false, 150) }
+
+// Interval analysis (used to elide mod in the INT lowering and to settle branch
+// conditions without the solver): for random terms, random variable bounds learned
+// from a path condition and random assignments inside those bounds, the concrete
+// value must lie in the computed interval, and a condition the analysis settles
+// must evaluate to the settled value.
+func TestIntervalSoundness(t *testing.T) {
+	r := rand.New(rand.NewSource(7))
+	checked, settled := 0, 0
+	for iter := 0; iter < 4000; iter++ {
+		g := &termGen{r: r}
+		w := []uint8{8, 16, 32, 64}[r.Intn(4)]
+		signed := r.Intn(2) == 0
+		term := g.intTerm(3, w, signed, false)
+		cond := g.boolTerm(2, false)
+		ex := &Explorer{}
+		// a path condition bounding some variables
+		model := map[string]uint64{}
+		for _, v := range g.vars {
+			val := interesting[r.Intn(len(interesting))] + uint64(r.Intn(5))
+			val &= maskB(v.w)
+			model[v.name] = val
+			if r.Intn(2) == 0 {
+				// lo <= v <= hi around the chosen value, in v's own order
+				lo, hi := mkConst(val-uint64(r.Intn(3)), v.w, v.signed), mkConst(val+uint64(r.Intn(3)), v.w, v.signed)
+				memo := map[*Term]uint64{}
+				for _, c := range []*Term{mkLe(lo, v), mkLe(v, hi)} {
+					if evalTerm(c, model, memo) != 0 {
+						ex.pc = append(ex.pc, c)
+					}
+				}
+			}
+		}
+		ex.intervalDecides(mkBoolConst(true)) // sync bounds
+		memo := map[*Term]uint64{}
+		val := evalTerm(term, model, memo)
+		iv := ex.ivl.interval(term)
+		var big = termConstBig(mkConst(val, term.w, term.signed))
+		if big.Cmp(iv.lo) < 0 || big.Cmp(iv.hi) > 0 {
+			t.Fatalf("iter %d: value %s of %s outside interval [%s,%s] (model %v, pc %v)", iter, big, term, iv.lo, iv.hi, model, ex.pc)
+		}
+		checked++
+		if v, ok := ex.intervalDecides(cond); ok {
+			settled++
+			if got := evalTerm(cond, model, memo) != 0; got != v {
+				t.Fatalf("iter %d: condition %s settled to %v but evaluates to %v (model %v, pc %v)", iter, cond, v, got, model, ex.pc)
+			}
+		}
+	}
+	t.Logf("interval soundness: %d terms checked, %d conditions settled by intervals", checked, settled)
+}
